@@ -88,7 +88,7 @@ def gen(S, tier):
     cls = c.weighted([("auto", 7), ("manual", 3)])
     sc = {"class": cls, "ansi": c.chance(0.85), "verbosity": c.weighted([(0, 5), (1, 1), (2, 1)]),
           # clikit's own StreamOutputStream over a simulated text file, or the simulated stream directly
-          "real_stream": c.chance(0.3),
+          "real_stream": c.chance(0.3), "file_mode": c.pick(["write_through", "write_through", "buffered"]),
           "interval": c.pick([100, 100, 50, 250]), "values": c.pick(VALUES),
           "fmt": c.pick([None, None, None, " {indicator} {message}", "{message} {indicator}"])}
     if cls == "manual":
@@ -224,7 +224,9 @@ def _mk_io(sc, log, screen, on_write=None, after_write=None):
     from clikit.formatter import AnsiFormatter
     if sc.get("real_stream"):
         from ..realstream import RealStreamOutput, SimFile
-        f = SimFile("err", log, screen=screen, on_write=on_write)
+        wt = sc.get("file_mode", "write_through") == "write_through"
+        f = SimFile("err", log, screen=screen, on_write=None if wt else on_write, write_through=wt,
+                    on_call=on_write)
         f.after_write = after_write
         stream = RealStreamOutput(f, sc["ansi"])
     else:
